@@ -14,7 +14,7 @@ rule = ("scripts = 'g begin', ops, 'g end', one driver process per script; strea
         "(shared prefixes, prefix-of-another, empty element) on the global tree, each followed by a get of all 6 paths; "
         "stream 2: the same histories with mixed front ends (NULL config, sub-tree views a / a.b, private list through "
         "mpt_node_assign/mpt_node_query, separators '.' and '/'); stream 3: path text splitting (mpt_path_set + "
-        "mpt_path_next) for all texts over {a,b,sep} up to length 5 with and without an assign character, "
+        "mpt_path_next) for all texts over {a,b,sep} up to length 5 with and without an assign character and with every explicit length, "
         "mpt_path_last after 0..3 consumed elements, path building with mpt_path_addchar/valid/add/del in separator and "
         "binary mode; stream 4: random histories with element and value lengths from {0,1,2,254,255,256,300} and "
         "repeated elements; non-trivial = a history in which a removal or an overwrite changed the stored pairs while "
@@ -104,6 +104,8 @@ def _stream3(tier):
             if n <= 4:
                 for skip in range(0, 4):
                     lines.append("g last %s 2e %d" % (hx(s), skip))
+                for take in range(0, n + 1):
+                    lines.append("g splitn %s 2e %d" % (hx(s), take))
             if len(lines) > 400:
                 out.append(("path:%d" % len(out), lines + ["g end"]))
                 lines = ["g begin"]
